@@ -523,3 +523,33 @@ def cyclic_body_disjunction_with_complement(prog):
             if pos & neg:
                 return True
     return False
+
+
+@st.composite
+def dense_cycles(draw, max_atoms=5):
+    """Propositional programs with densely mutually recursive derived atoms, each with its own probabilistic
+    support, and several queries in drawn order (the order in which cycle breaking meets the atoms matters)."""
+    n = draw(st.integers(3, max_atoms))
+    names = ["n%d" % i for i in range(n)]
+    prog = []
+    for i in range(n):
+        prog.append(["pfact", draw(st.sampled_from(["0.2", "0.3", "0.4", "0.5", "0.6", "0.7"])), ["f%d" % i, []]])
+    rules = []
+    for i in range(n):
+        rules.append(["rule", [names[i], []], [[False, "f%d" % i, []]]])
+        for j in range(n):
+            if i != j and draw(st.integers(0, 2)) != 0:
+                body = [[False, names[j], []]]
+                if draw(st.integers(0, 3)) == 0:
+                    k = draw(st.integers(0, n - 1))
+                    body.append([False, "f%d" % k, []])
+                rules.append(["rule", [names[i], []], body])
+    rules = list(draw(st.permutations(rules)))
+    prog += rules
+    nq = draw(st.integers(2, 3))
+    qs = draw(st.permutations(names))[:nq]
+    for q in qs:
+        prog.append(["query", [q, []], False])
+    if draw(st.integers(0, 3)) == 0:
+        prog.append(["evidence", [draw(st.sampled_from(names)), []], draw(st.booleans()), 0])
+    return prog
